@@ -112,7 +112,8 @@ func c12GenEntries(r *Rand, mp, mv string, osLimits bool) []zipuEntry {
 				e := es[r.Intn(len(es))]
 				if len(e.name) > len(prefix) && strings.HasPrefix(e.name, prefix) {
 					rel := e.name[len(prefix):]
-					add(prefix+r.Pick([]string{strings.ToUpper(rel), strings.ToLower(rel), strings.Replace(rel, "k", "K", 1), strings.Replace(rel, "s", "ſ", 1)}), []byte("cv"))
+					add(prefix+r.Pick([]string{strings.ToUpper(rel), strings.ToLower(rel), strings.Replace(rel, "k", "K", 1), strings.Replace(rel, "s", "ſ", 1),
+						zipuFlipCase(r, rel), zipuFlipCase(r, rel), zipuFlipCase(r, rel), zipuFlipCase(r, rel)}), []byte("cv"))
 				}
 			}
 		case 9:
@@ -183,8 +184,27 @@ func c12ModeBits() [][]zipuEntry {
 	return out
 }
 
+// c12FoldAndOrder: a case-variant pair for every ASCII letter (files and directories, both orders), and
+// small root LICENSE / go.mod entries that come after more than 16 MiB of other (zero) content.
+func c12FoldAndOrder() [][]zipuEntry {
+	pfx := "example.com/m@v1.0.0/"
+	var out [][]zipuEntry
+	for _, pr := range zipuFoldSweep() {
+		out = append(out, []zipuEntry{{name: pfx + pr[0], decl: 1, content: []byte("x")}, {name: pfx + pr[1], decl: 1, content: []byte("y")}})
+	}
+	zeros := func(p string, n int) zipuEntry { return zipuEntry{name: pfx + p, decl: uint64(n), content: make([]byte, n)} }
+	small := func(p, c string) zipuEntry { return zipuEntry{name: pfx + p, decl: uint64(len(c)), content: []byte(c)} }
+	out = append(out,
+		[]zipuEntry{zeros("big.bin", zipu16M+1), small("LICENSE", "abc")},
+		[]zipuEntry{zeros("big.bin", zipu16M+1), small("go.mod", "module example.com/m\n")},
+		[]zipuEntry{small("LICENSE", "abc"), small("go.mod", "module example.com/m\n"), zeros("big.bin", zipu16M+1)},
+		[]zipuEntry{zeros("a.bin", 6<<20), zeros("b.bin", 6<<20), zeros("c/d.bin", 6<<20), small("LICENSE", "text"), small("go.mod", "module example.com/m\n"), small("z.go", "z")},
+	)
+	return out
+}
+
 func genC12(g *Gen, n int) {
-	for _, es := range append(c12HugeSizes(), c12ModeBits()...) {
+	for _, es := range append(append(c12HugeSizes(), c12ModeBits()...), c12FoldAndOrder()...) {
 		tok := zipuEntriesTok(es)
 		g.Emit("zip.checkzip "+hx("example.com/m")+" "+hx("v1.0.0")+" 0 "+tok, true, "fixed-sizes-modes")
 		g.Emit("zip.unzip "+hx("example.com/m")+" "+hx("v1.0.0")+" 0 m "+tok, true, "fixed-sizes-modes")
@@ -364,7 +384,7 @@ func c12Check(g *Gen, m module.Version, es []zipuEntry, target byte, line string
 }
 
 func oracleC12(g *Gen, n int) {
-	for _, es := range append(c12HugeSizes(), c12ModeBits()...) {
+	for _, es := range append(append(c12HugeSizes(), c12ModeBits()...), c12FoldAndOrder()...) {
 		m := module.Version{Path: "example.com/m", Version: "v1.0.0"}
 		t := "me"[g.Intn(2)]
 		c12Check(g, m, es, t, "zip.unzip "+hx(m.Path)+" "+hx(m.Version)+" 0 "+string(t)+" "+zipuEntriesTok(es))
